@@ -25,6 +25,11 @@ def run_check(ctx, cid, tier, seed, t0):
                          'log': pr.get('log', '')[-1500:]})
     elif not pr.get('axioms_ok', False):
         problems.append({'kind': 'assumptions', 'detail': 'Print Assumptions not closed / not allow-listed: %s' % pr.get('axioms')})
+    chk = None
+    if tier == 'thorough' and pr['built']:
+        ok_chk, chk = ctx.coqchk(cid)
+        if not ok_chk:
+            problems.append({'kind': 'coqchk', 'detail': 'coqchk -o does not report a clean context: %s' % chk})
     hok, hout = ctx.harness_build()
     corr = None
     if not hok:
@@ -60,6 +65,7 @@ def run_check(ctx, cid, tier, seed, t0):
         'checker_cmd': 'make -C coq Props/%s.vo (full .vo build of the cone, coq_makefile) && coqc -Q coq Ax coq/Props/%s.v' % (cid, cid),
         'trusted_base': ctx.TRUSTED_BASE + spec.get('trusted_extra', []),
         'problems': problems,
+        'coqchk': chk if chk is not None else 'run in the thorough tier only',
     }
     if corr:
         cov['known_findings_listed'] = [k['id'] for k in known]
